@@ -220,51 +220,7 @@ func checkC20(c *Check) {
 			}
 		}
 		c.floor("C20.2 serve-after-close", n, 1, "early ErrServerClosed returns")
-		// deferred shutdown: stop all, serving=false, close(doneServingCh) in one critical section
-		var d *ssa.Function
-		allInstrs(fn, func(in ssa.Instruction) {
-			if df, ok := in.(*ssa.Defer); ok {
-				if t := p.staticLocalCallee(df); t != nil && len(p.callsIn(t, descIs("peer.stop"))) > 0 {
-					d = t
-				}
-			}
-		})
-		okD := d != nil
-		if okD {
-			h := p.lockHeld(d, "mu")
-			var store, closeDone ssa.Instruction
-			allInstrs(d, func(in ssa.Instruction) {
-				if st, ok := in.(*ssa.Store); ok {
-					if fa, ok := st.Addr.(*ssa.FieldAddr); ok && structFieldName(fa) == "serving" {
-						store = in
-					}
-				}
-				if cl, ok := in.(*ssa.Call); ok && p.calleeDesc(cl) == "builtin:close" {
-					closeDone = in
-				}
-			})
-			locks := p.callsIn(d, descIs("sync.Mutex.Lock"))
-			unlocks := p.callsIn(d, descIs("sync.Mutex.Unlock"))
-			okD = store != nil && closeDone != nil && h[store] && h[closeDone] && len(locks) == 1 && len(unlocks) == 1
-			for _, cl := range p.callsIn(d, descIs("peer.stop")) {
-				if !h[cl.(ssa.Instruction)] {
-					okD = false
-				}
-				if _, isGo := cl.(*ssa.Go); isGo {
-					okD = false
-				}
-			}
-			if okD {
-				// no Unlock between the Lock and the store of serving=false
-				hit := pathSearch(d, locks[0].(ssa.Instruction), func(x ssa.Instruction) bool { return x == store }, func(x ssa.Instruction) bool {
-					ci, ok := x.(ssa.CallInstruction)
-					return ok && p.calleeDesc(ci) == "sync.Mutex.Unlock"
-				})
-				okD = hit != nil
-			}
-		}
-		c.require(okD, "C20.2 start-stop-symmetry", "Server.Serve", "deferred shutdown atomic", p.Pos(fn.Pos()),
-			"the deferred shutdown stops every peer (synchronously), clears serving and closes doneServingCh inside one critical section, so no AddPeer can start a peer that is never stopped")
+		c.serveShutdown("C20.2 start-stop-symmetry")
 	}
 	// accept sets of the validators
 	if fn := p.Fn("PeerConfig.validate"); fn != nil && len(fn.Params) == 2 {
@@ -368,4 +324,59 @@ func checkC20(c *Check) {
 // isFreeVal: the term is a captured variable (directly or through its cell).
 func isFreeVal(e *Expr) bool {
 	return e != nil && (e.Op == "free" || (e.Op == "ld" && e.Args[0].Op == "free"))
+}
+
+// serveShutdown: Serve's deferred shutdown stops every peer synchronously,
+// clears serving and closes doneServingCh in one critical section.
+func (c *Check) serveShutdown(rule string) {
+	p := c.P
+	fn := p.Fn("Server.Serve")
+	if fn == nil {
+		return
+	}
+		// deferred shutdown: stop all, serving=false, close(doneServingCh) in one critical section
+		var d *ssa.Function
+		allInstrs(fn, func(in ssa.Instruction) {
+			if df, ok := in.(*ssa.Defer); ok {
+				if t := p.staticLocalCallee(df); t != nil && len(p.callsIn(t, descIs("peer.stop"))) > 0 {
+					d = t
+				}
+			}
+		})
+		okD := d != nil
+		if okD {
+			h := p.lockHeld(d, "mu")
+			var store, closeDone ssa.Instruction
+			allInstrs(d, func(in ssa.Instruction) {
+				if st, ok := in.(*ssa.Store); ok {
+					if fa, ok := st.Addr.(*ssa.FieldAddr); ok && structFieldName(fa) == "serving" {
+						store = in
+					}
+				}
+				if cl, ok := in.(*ssa.Call); ok && p.calleeDesc(cl) == "builtin:close" {
+					closeDone = in
+				}
+			})
+			locks := p.callsIn(d, descIs("sync.Mutex.Lock"))
+			unlocks := p.callsIn(d, descIs("sync.Mutex.Unlock"))
+			okD = store != nil && closeDone != nil && h[store] && h[closeDone] && len(locks) == 1 && len(unlocks) == 1
+			for _, cl := range p.callsIn(d, descIs("peer.stop")) {
+				if !h[cl.(ssa.Instruction)] {
+					okD = false
+				}
+				if _, isGo := cl.(*ssa.Go); isGo {
+					okD = false
+				}
+			}
+			if okD {
+				// no Unlock between the Lock and the store of serving=false
+				hit := pathSearch(d, locks[0].(ssa.Instruction), func(x ssa.Instruction) bool { return x == store }, func(x ssa.Instruction) bool {
+					ci, ok := x.(ssa.CallInstruction)
+					return ok && p.calleeDesc(ci) == "sync.Mutex.Unlock"
+				})
+				okD = hit != nil
+			}
+		}
+		c.require(okD, "C20.2 start-stop-symmetry", "Server.Serve", "deferred shutdown atomic", p.Pos(fn.Pos()),
+			"the deferred shutdown stops every peer (synchronously), clears serving and closes doneServingCh inside one critical section, so no AddPeer can start a peer that is never stopped")
 }
